@@ -7,11 +7,11 @@ Core Lean only (linked into `pkmodel-c07`).  One definition per Go function, sam
 Abstractions (stated in props.d/C07.json):
 * a blob ref is a number; `Claim.rk` is the order key of its text (refs of one hash sort by digest);
 * a signer is a number: one signer blob per GPG key id, ordered like the key ids;
-* a date is a number of seconds; the zero `time.Time` is `none`; `now` is a parameter;
+* a date is a number of nanoseconds; the zero `time.Time` is `none`; `now` is a parameter;
 * a Go map `attr → []string` is an association list (`get` of an absent key is the empty slice,
   as `len(m[k]) == 0` in Go); map iteration is never observed;
-* `sort.Sort` is a stable insertion sort (`sortBy`): exact for pairwise distinct dates, whatever the
-  algorithm, and for ≤ 12 elements (pdqsort's insertion-sort cut-off).
+* `sort.Sort` is an insertion sort (`sortBy`): since 83d40e9 the order of claims is total (date, then
+  blobref), so every sorting algorithm gives the same result on claims with distinct refs.
 -/
 namespace Pk.Attr
 
@@ -73,17 +73,39 @@ def sortBy {α : Type} (le : α → α → Bool) : List α → List α
   | [] => []
   | a :: t => ins le a (sortBy le t)
 
-/-- `camtypes.ClaimPtrsByDate.Less` / `ClaimsByDate.Less` as a non-strict order: no tie-break -/
-def dateLe (a b : Claim) : Bool := decide (a.date ≤ b.date)
+/-- `camtypes.claimBefore` (search.go:73, since 83d40e9), the `Less` of ClaimPtrsByDate and ClaimsByDate:
+by date, equal dates by blobref -/
+def claimLt (a b : Claim) : Bool := decide (a.date < b.date ∨ (a.date = b.date ∧ a.rk < b.rk))
+
+/-- the same order, non-strict: a total preorder, an order on claims with distinct refs -/
+def dateLe (a b : Claim) : Bool := decide (a.date < b.date ∨ (a.date = b.date ∧ a.rk ≤ b.rk))
 
 /-- `sort.Sort(camtypes.ClaimPtrsByDate(..))` -/
 def sortByDate (l : List Claim) : List Claim := sortBy dateLe l
+
+/-- nanoseconds per second: a date is a number of nanoseconds since the epoch -/
+def nsPerSec : Nat := 1000000000
+
+/-- the characters after the seconds in `Time3339.String()` (time.RFC3339Nano, UTC): "Z" for a whole
+second, else "." + the nine nanosecond digits with trailing zeros trimmed + "Z" -/
+def fracText (nanos : Nat) : Bytes :=
+  if nanos = 0 then [90]
+  else
+    let ds := (List.range 9).map (fun i => 48 + (nanos / 10 ^ (8 - i)) % 10)
+    let trimmed := (ds.reverse.dropWhile (fun d => d == 48)).reverse
+    46 :: trimmed ++ [90]
+
+/-- order of two claim dates as the index keys spell them (fixed-width up to the seconds, so by the
+second first, then by the TEXT of the fraction: ".5Z" sorts before "Z" and after ".50001Z") -/
+def dateTextLt (a b : Nat) : Bool :=
+  if a / nsPerSec ≠ b / nsPerSec then decide (a / nsPerSec < b / nsPerSec)
+  else ltB (fracText (a % nsPerSec)) (fracText (b % nsPerSec))
 
 /-- order of the `claim|<permanode>|<signer key id>|<date>|<claim ref>` keys (pkg/index/keys.go:194) -/
 def rowLe (a b : Claim) : Bool :=
   if a.pn ≠ b.pn then decide (a.pn < b.pn)
   else if a.signer ≠ b.signer then decide (a.signer < b.signer)
-  else if a.date ≠ b.date then decide (a.date < b.date)
+  else if a.date ≠ b.date then dateTextLt a.date b.date
   else decide (a.rk ≤ b.rk)
 
 /-! ## claimsIntfAttrValue (util.go:76) -/
@@ -190,7 +212,7 @@ def fixupLastClaim (pm : PM) : PM :=
   match pm.attr, pm.claims.reverse with
   | some _, [last] => appendAttrClaim pm last
   | some _, last :: prev :: _ =>
-    if prev.date < last.date then appendAttrClaim pm last else restoreInvariants pm
+    if claimLt prev last then appendAttrClaim pm last else restoreInvariants pm
   | _, _ => restoreInvariants pm
 
 /-- corpus.go:681 mergeClaimRow on a live corpus (`!c.building`), restricted to the PermanodeMeta -/
